@@ -39,7 +39,7 @@ HARNESSES['lexing.whitespace_5'] = dict(LEXM, harness='whitespace_5', function='
     says='found_ok; token covers exactly the maximal run of blanks / tabs / LF and records its length (tabs: doubled)')
 HARNESSES['lexing.whitespace_8'] = dict(LEXM, harness='whitespace_8', function='lex_spaces / lex_tabs / lex_newlines', bound='every [char] of length 0..=8, fully symbolic chars', timeout=1800,
     says='found_ok; token covers exactly the maximal run of blanks / tabs / LF and records its length (tabs: doubled)')
-HARNESSES['lexing.hex_5'] = dict(LEXM, harness='hex_5', function='lex_hex_number', bound='every [char] of length 0..=5, fully symbolic chars', timeout=1800,
+HARNESSES['lexing.hex_4'] = dict(LEXM, harness='hex_4', function='lex_hex_number', bound='every [char] of length 0..=4, fully symbolic chars', timeout=1800,
     says='found_ok; hit = "0x" + hex digits, radix 16')
 HARNESSES['lexing.hostname_4'] = dict(LEXM, harness='hostname_4', function='lex_hostname_token', bound='every [char] of length 0..=4, fully symbolic chars', timeout=1800, says='found_ok')
 HARNESSES['lexing.url_4'] = dict(LEXM, harness='url_4', function='lex_url', bound='every [char] of length 0..=4, fully symbolic chars', timeout=2400, says='found_ok', covers=False)
@@ -50,5 +50,3 @@ for _n in (4, 5, 6):
     HARNESSES[f'jsdoc.parse_inline_tag_{_n}'] = dict(JSD, harness=f'parse_inline_tag_{_n}', function='parse_inline_tag', timeout=900,
         bound=f"every token sequence of length 0..={_n} over {{'{{', '}}', '@', Word, Space, Unlintable}}",
         says='terminates within len+1 iterations (unwinding assertion), result p satisfies 4 <= p <= len and tokens[p-1] is the closing curly')
-HARNESSES['jsdoc.mark_inline_tags_5'] = dict(JSD, harness='mark_inline_tags_5', function='mark_inline_tags', timeout=1200,
-    bound="every token sequence of length 0..=5 over {'{', '}', '@', Word, Space, Unlintable}", says='terminates, no panic, spans untouched')
